@@ -115,6 +115,7 @@ type vfCliReq struct {
 	idx      int
 	body     string
 	direct   int
+	hdr      string // "ok", "big", "bad"
 	rt       *testRoundTrip
 	reported bool
 	isResp   bool
@@ -143,6 +144,8 @@ type vfCliConn struct {
 	srvEnd bool // the script closed the connection
 	cliEnd bool // the client closed the connection
 	goaway bool
+	held   int // reservations taken by the script and not yet used or released
+	nresv  int // reservations the script ever took on this connection
 	maxc   int
 	ids    []uint32
 	owner  map[uint32]*vfCliReq
@@ -159,6 +162,8 @@ type vfCliCmd struct {
 	Lm   string `json:"lm"`
 	St   bool   `json:"strict"`
 	Kind string `json:"kind"`
+	Hdr  string `json:"hdr"`
+	Via  string `json:"via"`
 }
 
 type vfCli struct {
@@ -308,6 +313,12 @@ func (d *vfCli) newRequest(r *vfCliReq) *http.Request {
 	default:
 		req, _ = http.NewRequest("GET", url, nil)
 	}
+	switch r.hdr { // headers the client refuses when it encodes HEADERS (after the stream id is assigned)
+	case "big": // over the SETTINGS_MAX_HEADER_LIST_SIZE (4096) every scripted server advertises
+		req.Header.Set("X-Big", strings.Repeat("a", 8192))
+	case "bad": // invalid field value
+		req.Header.Set("X-Bad", "a\nb")
+	}
 	return req
 }
 
@@ -328,7 +339,10 @@ func (d *vfCli) do(cmd vfCliCmd) bool {
 		if len(d.reqs) >= d.nreq {
 			return false
 		}
-		r := &vfCliReq{idx: len(d.reqs) + 1, body: cmd.Body}
+		r := &vfCliReq{idx: len(d.reqs) + 1, body: cmd.Body, hdr: cmd.Hdr}
+		if r.hdr != "big" && r.hdr != "bad" {
+			r.hdr = "ok"
+		}
 		switch r.body {
 		case "", "none":
 			r.body = "none"
@@ -343,12 +357,15 @@ func (d *vfCli) do(cmd vfCliCmd) bool {
 				return false
 			}
 			r.direct = c.idx
+			if c.held > 0 {
+				c.held-- // ClientConn.RoundTrip uses up a reservation
+			}
 			d.reqs = append(d.reqs, r)
-			d.emit(map[string]any{"e": "starton", "r": r.idx, "c": c.idx, "body": r.body, "len": r.total})
+			d.emit(map[string]any{"e": "starton", "r": r.idx, "c": c.idx, "body": r.body, "len": r.total, "hdr": r.hdr})
 			r.rt = c.tc.roundTrip(d.newRequest(r))
 		} else {
 			d.reqs = append(d.reqs, r)
-			d.emit(map[string]any{"e": "start", "r": r.idx, "body": r.body, "len": r.total})
+			d.emit(map[string]any{"e": "start", "r": r.idx, "body": r.body, "len": r.total, "hdr": r.hdr})
 			r.rt = d.tt.roundTrip(d.newRequest(r))
 		}
 	case "burst": // cmd.Max plain requests enter Transport.RoundTrip at the same moment
@@ -361,9 +378,9 @@ func (d *vfCli) do(cmd vfCliCmd) bool {
 		}
 		gate := make(chan struct{})
 		for i := 0; i < k; i++ {
-			r := &vfCliReq{idx: len(d.reqs) + 1, body: "none"}
+			r := &vfCliReq{idx: len(d.reqs) + 1, body: "none", hdr: "ok"}
 			d.reqs = append(d.reqs, r)
-			d.emit(map[string]any{"e": "start", "r": r.idx, "body": r.body, "len": r.total})
+			d.emit(map[string]any{"e": "start", "r": r.idx, "body": r.body, "len": r.total, "hdr": r.hdr})
 			ctx, cancel := context.WithCancel(context.Background())
 			req := d.newRequest(r).WithContext(ctx)
 			rt := &testRoundTrip{t: d.tb, donec: make(chan struct{}), cancel: cancel}
@@ -391,8 +408,28 @@ func (d *vfCli) do(cmd vfCliCmd) bool {
 		if c == nil || !c.live() {
 			return false
 		}
-		ok := c.tc.cc.ReserveNewRequest()
-		d.emit(map[string]any{"e": "reserve", "c": c.idx, "ok": ok})
+		// a slot is reserved and no request started yet: what the pool does when it picks the
+		// connection (ReserveNewRequest) or what net/http's ClientConn.Reserve does
+		var ok bool
+		if cmd.Via == "nethttp" {
+			ok = c.tc.cc.VfCliNetHTTPReserve()
+		} else {
+			cmd.Via = "pool"
+			ok = c.tc.cc.ReserveNewRequest()
+		}
+		if ok {
+			c.held++
+			c.nresv++
+		}
+		d.emit(map[string]any{"e": "reserve", "c": c.idx, "ok": ok, "via": cmd.Via})
+	case "release": // a reservation is given back unused
+		c := d.conn(cmd.C)
+		if c == nil || !c.live() || c.held == 0 {
+			return false
+		}
+		c.held--
+		d.emit(map[string]any{"e": "release", "c": c.idx})
+		c.tc.cc.VfCliNetHTTPRelease()
 	case "settings":
 		c := d.conn(cmd.C)
 		if c == nil || !c.live() {
@@ -603,7 +640,7 @@ func (d *vfCli) step(cmd vfCliCmd) bool {
 		if c.maxc < 0 && c.live() {
 			c.maxc = 100
 			d.emit(map[string]any{"e": "p_settings", "c": c.idx, "max": 100})
-			c.tc.writeSettings(Setting{SettingMaxConcurrentStreams, 100})
+			c.tc.writeSettings(Setting{SettingMaxConcurrentStreams, 100}, Setting{SettingMaxHeaderListSize, 4096})
 			c.tc.writeSettingsAck()
 			d.settle()
 		}
@@ -626,6 +663,16 @@ func (d *vfCli) finish() {
 	for _, r := range d.reqs {
 		if b := d.curBody(r); b != nil && !r.bclosed {
 			d.step(vfCliCmd{E: "bclose", R: r.idx})
+		}
+	}
+	// reservations the script still holds are given back; Release does not wake queued RoundTrips,
+	// a SETTINGS_INITIAL_WINDOW_SIZE from the server does
+	for _, c := range d.conns {
+		if c.nresv > 0 && c.live() {
+			for c.held > 0 {
+				d.step(vfCliCmd{E: "release", C: c.idx})
+			}
+			d.step(vfCliCmd{E: "settings_other", C: c.idx, Kind: "iws"})
 		}
 	}
 	for it := 0; it < 16 && d.pending(); it++ {
@@ -713,6 +760,7 @@ func vfCliSeeded(d *vfCli, rnd *rand.Rand, mix string, nops int) {
 	lms := []string{"zero", "max", "at", "below", "top"}
 	codes := []int{0, 0, 2, 11}
 	kinds := []string{"empty", "mfs", "iws", "hts"}
+	hdrs := []string{"ok", "ok", "ok", "ok", "ok", "ok", "big", "bad"}
 	for k := 0; k < nops; k++ {
 		x := rnd.Intn(100)
 		var cmd vfCliCmd
@@ -759,6 +807,9 @@ func vfCliSeeded(d *vfCli, rnd *rand.Rand, mix string, nops int) {
 					body = vfCliBodies[rnd.Intn(len(vfCliBodies))]
 				}
 				cmd = vfCliCmd{E: "start", Body: body}
+				if body == "none" {
+					cmd.Hdr = hdrs[rnd.Intn(len(hdrs))]
+				}
 			case x < 42:
 				cmd = vfCliCmd{E: "resp", R: pickReq(isOpen), Es: rnd.Intn(4) != 0}
 			case x < 47:
@@ -784,9 +835,11 @@ func vfCliSeeded(d *vfCli, rnd *rand.Rand, mix string, nops int) {
 			case x < 96:
 				cmd = vfCliCmd{E: "bclose", R: pickReq(isOpen)}
 			case x < 98:
-				cmd = vfCliCmd{E: "reserve", C: pickConn(anyConn)}
+				cmd = vfCliCmd{E: "reserve", C: pickConn(anyConn), Via: []string{"pool", "nethttp"}[rnd.Intn(2)]}
+			case x < 99:
+				cmd = vfCliCmd{E: "starton", C: pickConn(anyConn), Body: "none", Hdr: hdrs[rnd.Intn(len(hdrs))]}
 			default:
-				cmd = vfCliCmd{E: "starton", C: pickConn(anyConn), Body: "none"}
+				cmd = vfCliCmd{E: "release", C: pickConn(anyConn)}
 			}
 		}
 		if len(d.conns) >= 6 && (cmd.E == "goaway" || cmd.E == "close" || cmd.E == "srst") ||
@@ -932,6 +985,13 @@ func vfCliFixed() [][]vfCliCmd {
 		{{St: true}, {E: "start"}, {E: "settings", C: 1, Max: 3}, {E: "start"}, {E: "start"},
 			{E: "settings", C: 1, Max: 1}, {E: "start"}, {E: "resp", R: 1, Es: true}, {E: "resp", R: 2, Es: true},
 			{E: "resp", R: 3, Es: true}, {E: "start"}, {E: "settings", C: 1, Max: 2}, {E: "resp", R: 4, Es: true}},
+		// a reservation is outstanding, a request gets a stream id and is then refused while its
+		// HEADERS are encoded (header list over the advertised limit / invalid field value); further
+		// requests fill the connection up to the limit counting the reservation, the next one must
+		// go to another connection; finally the reservation is used
+		{{St: false}, {E: "start"}, {E: "resp", R: 1, Es: true}, {E: "settings", C: 1, Max: 2},
+			{E: "reserve", C: 1}, {E: "start", Hdr: "big"}, {E: "start", Hdr: "bad"}, {E: "start"}, {E: "start"},
+			{E: "starton", C: 1}, {E: "reserve", C: 1, Via: "nethttp"}, {E: "release", C: 1}},
 		// limit 2, then a SETTINGS frame without MAX_CONCURRENT_STREAMS (the limit stays 2): the third
 		// request queues (strict) / goes to another connection (non-strict)
 		{{St: true}, {E: "start"}, {E: "settings", C: 1, Max: 2}, {E: "settings_other", C: 1, Kind: "mfs"},
